@@ -14,6 +14,9 @@ LEVEL_TEXT += " " + '(FLUSH) adding, removing or moving a server makes the updat
 TECHNIQUE += "; exact evaluation of calc_minttl's section loop and skip condition for every (section, record type) pair of the public enums"
 LEVEL_TEXT += (" (FILTER, seventh round) the TTL minimum is taken over the answer, authority and additional sections and over every record type except OPT, SIG and an SOA outside the "
                "answer section, decided by interpreting the function's own conditions for all 3 x 20 pairs.")
+# seventh/eighth-round addition
+TECHNIQUE += "; " + 'exact evaluation of the lifetime decision of ares_qcache_insert_int over (rcode, TC, smallest TTL, SOA lifetime, max_ttl) with the callee results as inputs (R-C08-LIFETIME) and of the expiry comparator over 81 pairs of expiry times (R-C08-ORDER)'
+LEVEL_TEXT += " " + "(LIFETIME, seventh round) the stored lifetime is, for every combination of response code, truncation, smallest record TTL or none, SOA negative lifetime or none, and max_ttl in {0, 3, 3600}, no longer than the response's own TTLs allow -- one row (NOERROR with an authority SOA and other TTLs) is a known finding; (ORDER) the expiry index is ordered by a total order also for lifetimes more than 2^31 s apart."
 LEVEL_NOTE = "trusts clang CFG + extractor; rr->ttl readers are enumerated over the whole library (field access by record type, not by name)"
 DESIGN_REF = "DESIGN.md §6/C08"
 EXPLANATION = LEVEL_TEXT
